@@ -428,6 +428,9 @@ pub fn run(tier: Tier) -> i32 {
         crash_subject: "loop".into(),
     };
     let g = gen(maxlen);
+    if let Some(art) = crate::common::replay_artefact() {
+        return crate::common::finish_replay("C11", &art, &|ws| confirm_enum(&o, &g, ws));
+    }
     let out = run_enum(&o, &g);
     enum_evidence(&mut run, &out, "one case = (program of <= L instructions over {nop, mov rax imm, inc rcx, jmp next, jmp end, jmp self, jrcxz skip, call next, ret, syscall, int3, invalid byte}, instruction limit in {none,0,1,2,3,5}, stack or not, hook configuration); every case is driven by every schedule (steps only; k steps then execute() for every k) whose final state, result and error text must agree, and stepped against a loop-control model built on an independent decode; states = distinct configurations; distinct_nontrivial = distinct (final fingerprint, result)");
     run.cov("program_max_length", json!(maxlen));
